@@ -15,6 +15,7 @@ import (
 type ServerDeps interface {
 	SendResponse(conn net.Conn, response string)
 	GetUserDB(userID int64) (*sql.DB, error)
+	GetSelectedDB(state *models.ClientState) (*sql.DB, int64, error)
 	GetSharedDB() *sql.DB
 	GetDBManager() *db.DBManager
 	GetS3Storage() *blobstorage.S3BlobStorage
@@ -222,8 +223,8 @@ func HandleClose(deps ServerDeps, conn net.Conn, tag string, state *models.Clien
 	// we always perform the expunge operation.
 	// TODO: Add ReadOnly field to ClientState to properly handle EXAMINE
 
-	// Get user database
-	userDB, err := deps.GetUserDB(state.UserID)
+	// Get the database the selected mailbox lives in (user or role mailbox)
+	userDB, _, err := deps.GetSelectedDB(state)
 	if err != nil {
 		// Clear selection and return
 		state.SelectedMailboxID = 0
